@@ -17,7 +17,7 @@ PROPERTY = {
                'cmdline': 'the same paths spelled a.b[i].c=value, values: int, string, list; default !notnew'},
     'outside': ["a !notnew tag on a node that is itself new (the statement speaks of content BELOW a !notnew node)", 'keys containing . [ = in command-line syntax', 'mapping values on the command line'],
     'per_split_timeout': {'quick': 600, 'thorough': 1800},
-    'wall_budget': {'quick': 900, 'thorough': 3400},
+    'wall_budget': {'quick': 1500, 'thorough': 7000},
 }
 
 BASE_TEXT = '{a: {b: {c: 1, l: [1, {k: 2}]}, e: 5, m: {x: 3}}, t: 0}'
